@@ -9,7 +9,9 @@
     [ordered] = strictly increasing, disjoint; [line_of] = an independent newline count.
 
     Option sets: [gen_scan_opts] is dumped from migrate.Stmts and the three drivers' ScanStmts on
-    every run; [supported] = no GO batch command (BEGIN TRY/END CATCH matching is covered). *)
+    every run; [supported] = no GO batch command (BEGIN TRY/END CATCH matching is covered).
+    Round 5: C08_total_all_options, C08_lossless_all_options_except and
+    C08_positions_all_options_except quantify over *every* value of the options record. *)
 From Coq Require Import List NArith ZArith Bool.
 From Atlas Require Import Base.Bytes Lex.LexModel Lex.LexProofs Lex.LexDrivers Lex.LexMemo gen.Gen_ScanOpts.
 Import ListNotations.
@@ -63,6 +65,35 @@ Theorem C08_total_all_supported : forall o inp,
   supported o = true -> scan o inp <> OutOfFuel /\ scan o inp <> Panic.
 Proof. exact scan_total. Qed.
 Print Assumptions C08_total_all_supported.
+
+(** ** Round 5: every value of the options record (all 2^10 combinations, [GoCommand] included).
+    Totality needs no side condition. *)
+Theorem C08_total_all_options : forall o inp, scan o inp <> OutOfFuel /\ scan o inp <> Panic.
+Proof. exact scan_total_all. Qed.
+Print Assumptions C08_total_all_options.
+
+(** Losslessness for every option set, in the form that is true of the code: [LosslessG] is
+    [Lossless] with one more segment after each raw statement, [go] - the bytes the GO branch of
+    [stmt] consumed after cutting the text ([GO], an optional count, up to and including the end
+    of the line); [go = []] unless [GoCommand o = true]; nothing else of the input is dropped; and
+    the reported [Pos] is the true offset of the raw text *plus* [zlen go] (the exact size of the
+    error of finding C08-gocommand-pos). For [GoCommand o = false] this is [Lossless]
+    ([LexProofs.LosslessG_noGo], used for C08_lossless / C08_lossless_all_supported above). *)
+Theorem C08_lossless_all_options_except : forall o inp ss,
+  scan o inp = Ok ss ->
+  exists hdr d0 rest, inp = hdr ++ rest /\ Header inp hdr d0 /\ LosslessG o d0 (zlen hdr) rest ss.
+Proof. exact scan_losslessG. Qed.
+Print Assumptions C08_lossless_all_options_except.
+
+(** Positions and lines for every option set: each [Text] is found in the input [sh] bytes before
+    its [Pos], with [sh = 0] unless [GoCommand]; [FileReport.Line(Pos)] never panics and is the
+    line of the byte at [Pos] (with GoCommand: of the byte [sh] after the statement's first). *)
+Theorem C08_positions_all_options_except : forall o inp ss,
+  scan o inp = Ok ss ->
+  Forall (fun st => exists sh, 0 <= sh /\ (GoCommand o = false -> sh = 0) /\ TextAtShift inp sh st /\
+                    Line inp (Pos st) = Ok (line_of inp (Pos st))) ss.
+Proof. exact scan_positionsG. Qed.
+Print Assumptions C08_positions_all_options_except.
 
 (** why GoCommand is excluded (no OSS driver enables it): with it the reported position is
     wrong — [Pos] of "SELECT 1" in "SELECT 1\nGO\n" is 2. Reproduced on the Go code by the tie. *)
@@ -139,6 +170,14 @@ Example C08_ex_total_nested_begins :
 Proof. vm_compute. reflexivity. Qed.
 
 (** ** non-vacuity *)
+(* round 5: "SELECT 1\nGO\n" with GoCommand: Pos 2 = true offset 0 + |"GO"|; every option on *)
+Definition opts_all := mkOpts true true true true true true true true true true.
+Example C08_ex_go_shift :
+  scan opts_go in_go = Ok [mkStmt 2 [83;69;76;69;67;84;32;49]%N []] /\
+  TextAtShift in_go 2 (mkStmt 2 [83;69;76;69;67;84;32;49]%N []) /\
+  scan opts_all in_go = Ok [mkStmt 2 [83;69;76;69;67;84;32;49]%N []].
+Proof. vm_compute. auto. Qed.
+
 (* "BEGIN TRY\nx;\nEND TRY\nBEGIN CATCH\ny;\nEND CATCH\nz;" with MatchBeginTryCatch: the block is one
    statement although the scanner rewinds after END CATCH *)
 Definition opts_try := mkOpts false false true false false false false false false false.
